@@ -86,12 +86,16 @@ def open_circuit_impedance(network: Network, node1: str, node2: str, node_index_
     if network.is_zero_node(node1):
         node1, node2 = node2, node1
     network = trf.switch_ground_node(network=network, new_ground=node2)
-    Y = node_admittance_matrix(network, node_index_mapper=node_index_mapper)
-    Y = np.delete(Y, np.where(~Y.any(axis=0))[0], axis=1)
-    Y = np.delete(Y, np.where(~Y.any(axis=1))[0], axis=0)
-    Z = np.linalg.inv(Y)
+    network = trf.short_circuitify_voltage_sources(trf.open_circuitify_current_sources(network))
+    A = nodal_analysis_coefficient_matrix(network, node_mapper=node_index_mapper)
     i1 = node_index_mapper(network)[node1]
-    return Z[i1][i1]
+    if not A[i1].any():
+        return np.inf
+    connected = [i1]
+    for i in connected:
+        connected.extend(j for j in np.flatnonzero(A[i]) if j not in connected)
+    Z = np.linalg.inv(A[np.ix_(connected, connected)])
+    return Z[0][0]
 
 def element_impedance(network: Network, element: str, node_index_mapper: map.NetworkMapper = map.default_node_mapper) -> complex:
     return open_circuit_impedance(
